@@ -55,11 +55,21 @@ func TestC13Durability(t *testing.T) {
 		if !mine(i) {
 			continue
 		}
-		runTracedUploads(r, seed, pick(8, 12))
+		runTracedUploads(r, seed, pick(8, 12), false)
+	}
+	// Concurrent uploads into one brand-new directory, with the exit of mkdirat
+	// delayed by the tracer (an injected delay at a real suspension point): the
+	// other uploaders find the directory, skip MkdirAll's fsyncs and return.
+	for i := 0; i < pick(2, 8); i++ {
+		seed := int64(rng.U64() >> 1)
+		if !mine(i) {
+			continue
+		}
+		runTracedUploads(r, seed, pick(6, 10), true)
 	}
 }
 
-func runTracedUploads(r *Run, seed int64, uploads int) {
+func runTracedUploads(r *Run, seed int64, uploads int, mkdirRace bool) {
 	base, _ := os.MkdirTemp(scratchRoot(), "fs-")
 	defer func() { unlockTree(base); os.RemoveAll(base) }()
 	dir := filepath.Join(base, "backend")
@@ -67,9 +77,16 @@ func runTracedUploads(r *Run, seed int64, uploads int) {
 	markers := filepath.Join(base, "markers.log")
 	trace := filepath.Join(base, "trace.txt")
 	info := map[string]any{"workload": "traced-uploads", "seed": seed, "uploads": uploads}
-	cmd := exec.Command("strace", "-f", "-y", "-ttt", "-T", "-s", "160", "-e", "trace=openat,renameat,renameat2,rename,mkdirat,mkdir,unlinkat,unlink,fsync,fdatasync,write,pwrite64,ftruncate,linkat",
-		"-o", trace, os.Args[0], "-test.run", "^TestHelperFS$")
-	cmd.Env = append(os.Environ(), "VERIF_HELPER=fshelper", "VERIF_FS_DIR="+dir, "VERIF_FS_MARKERS="+markers, fmt.Sprint("VERIF_FS_SEED=", seed), fmt.Sprint("VERIF_FS_UPLOADS=", uploads), "VERIF_OUT=")
+	args := []string{"-f", "-y", "-ttt", "-T", "-s", "160", "-e", "trace=openat,renameat,renameat2,rename,mkdirat,mkdir,unlinkat,unlink,fsync,fdatasync,write,pwrite64,ftruncate,linkat"}
+	race := "0"
+	if mkdirRace {
+		args = append(args, "-e", "inject=mkdirat:delay_exit=40000")
+		race = "1"
+		info["mkdirat_exit_delayed_us"] = 40000
+	}
+	args = append(args, "-o", trace, os.Args[0], "-test.run", "^TestHelperFS$")
+	cmd := exec.Command("strace", args...)
+	cmd.Env = append(os.Environ(), "VERIF_FS_RACE="+race, "VERIF_HELPER=fshelper", "VERIF_FS_DIR="+dir, "VERIF_FS_MARKERS="+markers, fmt.Sprint("VERIF_FS_SEED=", seed), fmt.Sprint("VERIF_FS_UPLOADS=", uploads), "VERIF_OUT=")
 	if out, err := cmd.CombinedOutput(); err != nil {
 		r.Inconcl("traced helper failed: %v: %s", err, lastBytes(out, 300))
 		return
